@@ -103,7 +103,7 @@ def check_property(prop, tier, only=None, jobs=None, verbose=True):
         to = c.timeout.get(tier, 40)
         work.append((("check", c.name), c, ex, to * 3 + 120))
         if c.kind == "crosshair":
-            work.append((("twin", c.name), c, ex, 60 * 3 + 120))
+            work.append((("twin", c.name), c, ex, 120 * 3 + 120))
     # longest first
     work.sort(key=lambda w: -w[3])
     results = {}
